@@ -61,12 +61,13 @@ def run(ctx):
                 if p.end != "stop":
                     continue
                 n += 1
+                # the running size is whichever local was updated to `<itself> + field.mem_size()` in this iteration (any name)
                 val = None
                 for l, v in p.env.items():
-                    if b.var_name(l) == rule_var:
+                    if expr.mentions(v, lambda x: x[0] == "call" and x[1] == Q + "field::HeaderField::mem_size") and \
+                            expr.mentions(v, lambda x: x[0] == "binop" and x[1].startswith("Add")) and b.locals[l].get("user"):
                         val = v
-                ok = val is not None and expr.mentions(val, lambda x: x[0] == "call" and x[1] == Q + "field::HeaderField::mem_size") and \
-                    expr.mentions(val, lambda x: x[0] == "binop" and x[1].startswith("Add"))
+                ok = val is not None
                 labs = [lab for _, lab, _ in p.variant_tests("block::HeaderBlockField::decode", "static_::StaticTable::find", "static_::StaticTable::find_name")]
                 ctx.check(ok, "C10-a", b.key, "every accepted field adds its mem_size (%s)" % "/".join(labs),
                           "an iteration that keeps a field (%s) does not add field.mem_size() to the running section size (value: %s): the "
